@@ -254,6 +254,15 @@ func vReceiver(c *GoBackNConn, count int, got chan [][]byte) {
 		}
 		out = append(out, m)
 	}
+	// A slice returned by Recv belongs to the caller, spare capacity included
+	// (append(m, ...) writes there): using it must not disturb any other
+	// message that was handed out.
+	for _, m := range out {
+		full := m[:cap(m)]
+		for i := len(m); i < len(full); i++ {
+			full[i] = 0xee
+		}
+	}
 	got <- out
 }
 
